@@ -568,7 +568,7 @@ def check(rep: Report, tier: str, seed: int) -> None:
             break
     rep.extra["oracle_cases"] = ncase
     rep.extra["t_oracle_s"] = round(time.time() - t0, 1)
-    if rep.broken and not rep.failing:
+    if rep.broken and not rep.unknown_failing():
         search(rep, seed, thorough)
 
 
